@@ -204,6 +204,11 @@ fn history(ctx: &Ctx, out: &mut Out, rng: &mut Rng, prop: &str, idx: u64) {
     let stats = prop == "C17";
     let mut cfg = HConfig::new(&rng.bytes(32));
     cfg.batch_size = if idx < 64 { idx as u8 + 1 } else { rng.range(1, 64) as u8 };
+    let timer = stats && idx % 8 >= 6;
+    if timer {
+        // status timer every status_interval/10 = 100 ms
+        cfg.status_interval = std::time::Duration::from_secs(1);
+    }
     if stats {
         cfg.client_stats = idx % 2 == 1;
         if cfg.client_stats {
@@ -291,7 +296,13 @@ fn history(ctx: &Ctx, out: &mut Out, rng: &mut Rng, prop: &str, idx: u64) {
         }
         tot.add(&r);
         if stats {
-            check_stats(out, &mut d, &tot, &rp);
+            if timer {
+                // let the status timer (100 ms) fire between traffic and observation
+                std::thread::sleep(std::time::Duration::from_millis(130));
+                let _ = d.srv.step(1);
+                out.obs("stats_timer_ticks_awaited", 1);
+            }
+            check_stats(out, &mut d, &mut tot, &rp);
         }
     }
     out.case(fnv64(&cfg.seed) ^ idx, socks_used.len() >= 3 && total_sent >= 3);
@@ -312,6 +323,7 @@ pub struct Totals {
     pub replies_ietf: u64,
     pub bytes: u64,
     pub spoofed: u64,
+    pub published: crate::inproc::StatsSnap,
 }
 
 impl Totals {
@@ -331,11 +343,34 @@ impl Totals {
 }
 
 /// C17 (3): the recorder, read through the hook at a quiescent point, equals the traffic
-pub fn check_stats(out: &mut Out, d: &mut Driver, t: &Totals, replay: &dyn Fn() -> serde_json::Value) {
-    let Some(s) = d.srv.stats() else {
+pub fn check_stats(out: &mut Out, d: &mut Driver, t: &mut Totals, replay: &dyn Fn() -> serde_json::Value) {
+    let Some(mut s) = d.srv.stats() else {
         out.inconclusive("stats hook unavailable");
         return;
     };
+    // what the status timer already published to the queue (per-client mode clears the recorder
+    // after publishing) belongs to the totals as well
+    while let Some(snapshot) = d.srv.queue.pop() {
+        out.obs("stats_snapshots_popped_from_queue", 1);
+        for c in snapshot {
+            t.published.rfc_req += c.rfc_requests as u64;
+            t.published.classic_req += c.classic_requests as u64;
+            t.published.invalid += c.invalid_requests as u64;
+            t.published.rfc_resp += c.rfc_responses_sent as u64;
+            t.published.classic_resp += c.classic_responses_sent as u64;
+            t.published.bytes += c.bytes_sent as u64;
+            t.published.failed_send += c.failed_send_attempts as u64;
+        }
+    }
+    s.rfc_req += t.published.rfc_req;
+    s.classic_req += t.published.classic_req;
+    s.valid += t.published.rfc_req + t.published.classic_req;
+    s.invalid += t.published.invalid;
+    s.rfc_resp += t.published.rfc_resp;
+    s.classic_resp += t.published.classic_resp;
+    s.responses += t.published.rfc_resp + t.published.classic_resp;
+    s.bytes += t.published.bytes;
+    s.failed_send += t.published.failed_send;
     out.obs("stats_snapshots_compared", 1);
     let mut bad = Vec::new();
     if s.valid + s.invalid != t.datagrams {
@@ -382,7 +417,7 @@ pub fn run(ctx: &Ctx, out: &mut Out, prop: &str) {
         return;
     }
     let n = match prop {
-        "C17" => ctx.share(1_600, 16_000),
+        "C17" => ctx.share(800, 16_000),
         _ => ctx.share(3_200, 48_000),
     };
     for i in 0..n {
@@ -394,6 +429,8 @@ pub fn run(ctx: &Ctx, out: &mut Out, prop: &str) {
     }
     if prop == "C17" {
         out.floor("stats_snapshots_compared", 200);
+        out.floor("stats_timer_ticks_awaited", 50);
+        out.floor("stats_snapshots_popped_from_queue", 10);
     } else {
         out.floor("histories_ge3_sockets", 100);
         out.floor("replies_verified", 2_000);
@@ -432,7 +469,7 @@ pub fn replay_history(out: &mut Out, prop: &str, r: &serde_json::Value) {
         crate::c07::check_round(out, prop, &round, &rp);
         tot.add(&round);
         if prop == "C17" {
-            check_stats(out, &mut d, &tot, &rp);
+            check_stats(out, &mut d, &mut tot, &rp);
         }
     }
 }
